@@ -230,7 +230,7 @@ var (
 	uPNames = []string{"transport", "user", "method", "ttl", "maddr", "lr", "x", "foo", "p-1", "Bar", "c%20", "z.z",
 		"n" + strings.Repeat("a", 30), "L" + strings.Repeat("ong-name.", 7), "m" + strings.Repeat("Xy", 64), "k" + strings.Repeat("z", 255), "transport-proto", "users", "lrx", "ttl1", "maddress", "methods"}
 	uPVals  = []string{"tcp", "udp", "phone", "INVITE", "1", "224.2.0.1", "on", "v", "V2", "a:b", "[1]", "x+y", "%41", "\"aBc\"", "\"Q.r:s\"", strings.Repeat("vW", 40)}
-	uHNames = []string{"subject", "to", "priority", "h1", "X-h", "Body", "route",
+	uHNames = []string{"subject", "to", "priority", "h1", "X-h", "Body", "route", "t", "f", "from", "i", "call-id", "m", "contact", "l", "content-length", "v", "via",
 		"H" + strings.Repeat("e", 31), "H" + strings.Repeat("d", 62), "H" + strings.Repeat("r", 63), "H" + strings.Repeat("s", 64), "Very-" + strings.Repeat("Long-", 26), "w" + strings.Repeat("Q", 300)}
 	uHVals = []string{"project", "bob%40b.com", "urgent", "1", "v", "A", "x:y", "[z]"}
 )
